@@ -17,9 +17,10 @@ let spec_of_sx (s : sx) : spec =
 
 let node_table (items : spec list) : (string, int) Hashtbl.t * string array =
   let names = List.map (fun s -> s.sname) items in
-  let usage n = List.length (List.filter (fun m -> m = n) names) in
-  let dis = List.concat_map (fun n -> let u = usage n in
-      if u > 1 then List.init u (fun k -> Printf.sprintf "%s_%d" n (k + 1)) else []) names in
+  let usage : (string, int) Hashtbl.t = Hashtbl.create 64 in
+  List.iter (fun n -> Hashtbl.replace usage n (1 + try Hashtbl.find usage n with Not_found -> 0)) names;
+  let dis = Hashtbl.fold (fun n u acc ->
+      if u > 1 then List.rev_append (List.init u (fun k -> Printf.sprintf "%s_%d" n (k + 1))) acc else acc) usage [] in
   let ents = List.concat_map (fun s -> List.map (fun e -> "[" ^ e ^ "]") (s.sprov @ s.sreq)) items in
   let all = List.sort_uniq compare (names @ dis @ ents) in
   let tbl = Hashtbl.create 64 in
@@ -51,6 +52,75 @@ let show_res (r : item list res) : string =
   | Unspec -> "(unspec)"
   | Fuel -> "(fuel)"
 
+
+(* ---------- is there an order in which every item runs after ALL the other providers of what it requires? ----------
+   Greedy construction (untrusted): an item can be placed next when every entity it requires has a
+   provider among the placed items and no provider other than the item itself is still unplaced.  The
+   conditions only get weaker when more items are placed, so the greedy choice loses nothing.  The
+   result counts only if the extracted, proved-sound strict validator chain_order_ok accepts it
+   (C10_strict_order_checker_sound; it implies order_ok). *)
+(* M (statistic only): a provider p of e may run after the consumer c if p requires something derived
+   from c's outputs through items that run at or after c (the BlobCache / RenameAnalysis exception) *)
+let feeds_within (rest : item list) (c : item) (p : item) : bool =
+  let d = Hashtbl.create 16 in
+  List.iter (fun e -> Hashtbl.replace d e ()) c.iprov;
+  let changed = ref true in
+  while !changed do
+    changed := false;
+    List.iter (fun x ->
+      if List.exists (Hashtbl.mem d) x.ireq then
+        List.iter (fun e -> if not (Hashtbl.mem d e) then (Hashtbl.replace d e (); changed := true)) x.iprov) rest
+  done;
+  List.exists (Hashtbl.mem d) p.ireq
+
+let suffix_chain_ok (order : item list) : bool =
+  let rec go before = function
+    | [] -> true
+    | (c :: after) as rest ->
+        List.for_all (fun e ->
+          List.exists (fun p -> List.mem e p.iprov) before
+          && List.for_all (fun p -> not (List.mem e p.iprov) || feeds_within rest c p) rest) c.ireq
+        && go (c :: before) after in
+  go [] order
+
+let find_valid_order (items : item list) : (string * item list) option =
+  let arr = Array.of_list items in
+  let n = Array.length arr in
+  let prov = Array.map (fun it -> List.map int_of_z it.iprov) arr in
+  let req = Array.map (fun it -> List.map int_of_z it.ireq) arr in
+  let providers : (int, int list) Hashtbl.t = Hashtbl.create 64 in
+  Array.iteri (fun i l -> List.iter (fun e ->
+    Hashtbl.replace providers e (i :: (try Hashtbl.find providers e with Not_found -> []))) l) prov;
+  let provs e = try Hashtbl.find providers e with Not_found -> [] in
+  let greedy placeable =
+    let placed = Array.make n false in
+    let order = ref [] and k = ref 0 in
+    let progress = ref true in
+    while !progress do
+      progress := false;
+      for c = 0 to n - 1 do
+        if not placed.(c) && placeable placed c then (placed.(c) <- true; order := arr.(c) :: !order; incr k; progress := true)
+      done
+    done;
+    if !k < n then None else Some (List.rev !order) in
+  let strict placed c =
+    List.for_all (fun e ->
+      let ps = provs e in
+      List.exists (fun p -> placed.(p)) ps && List.for_all (fun p -> placed.(p) || p = c) ps) req.(c) in
+  let suffix placed c =
+    let rest = List.filter_map (fun i -> if placed.(i) then None else Some arr.(i)) (List.init n (fun i -> i)) in
+    List.for_all (fun e ->
+      let ps = provs e in
+      List.exists (fun p -> placed.(p)) ps
+      && List.for_all (fun p -> placed.(p) || feeds_within rest arr.(c) arr.(p)) ps) req.(c) in
+  match greedy strict with
+  | Some o when chain_order_ok items o -> Some ("strict", o)
+  | _ ->
+      if n > 64 then None
+      else match greedy suffix with
+      | Some o when suffix_chain_ok o -> Some ("suffix", o)
+      | _ -> None
+
 (* ---------- the resolve part of a case ---------- *)
 let check_resolve (id : int) (kind : string) (specs : spec list) (outs : sx list) (must_succeed : bool) =
   let (tbl, _) = node_table specs in
@@ -67,18 +137,25 @@ let check_resolve (id : int) (kind : string) (specs : spec list) (outs : sx list
   let n_items = List.length items in
   let names = List.map (fun s -> s.sname) specs in
   let dup_names = List.length (List.sort_uniq compare names) < n_items in
-  let amb = ambiguous_keys id_choices dis items in
+  (* the scale family: more than 64 items are judged by the property oracles only (no model run, no region) *)
+  let large = n_items > 64 in
+  if large then count "resolve_large_unmodelled";
+  let amb = if large then [] else ambiguous_keys id_choices dis items in
   let maxp = int_of_nat (max_providers items) in
   (* every property failure names the region of the input space it lies in *)
-  let region = match region_of items with
+  let shallow = (if large then false else match region_of items with RSeveral | RRenames -> shallow_secondb items | _ -> false) in
+  let region = if large then "[scale]" else match region_of items with
     | RUnchained -> "[unchained]"
     | RThree -> "[three-providers]"
     | RNoRequire -> "[chained:no-provider-requires-entity]"
     | RShared -> "[chained:item-provides-two-ambiguous-entities]"
+    | (RSeveral | RRenames) when shallow -> "[chained:second-provider-not-farther-from-roots]"
     | RSeveral -> "[chained:unclassified:several-ambiguous-entities]"
     | RRenames -> "[chained:unclassified:renames-shape]" in
+  if not large then
   count ("region_" ^ (match region_of items with RUnchained -> "unchained" | RThree -> "three" | RNoRequire -> "norequire"
-                      | RShared -> "shared" | RSeveral -> "several" | RRenames -> "renames"));
+                      | RShared -> "shared" | (RSeveral | RRenames) when shallow -> "shallow_second"
+                      | RSeveral -> "several" | RRenames -> "renames"));
   let propfail id text = propfail id (region ^ " " ^ text) in
   count "resolve_cases";
   if not in_domain then count "resolve_outside_domain";
@@ -86,23 +163,32 @@ let check_resolve (id : int) (kind : string) (specs : spec list) (outs : sx list
   (* model outcomes: one when no map order is involved, else the set over a family of orders *)
   let model = Hashtbl.create 8 in
   let add_model ch = Hashtbl.replace model (show_res (resolve ch dis items)) () in
-  add_model id_choices;
-  if amb <> [] then for seed = 1 to 48 do add_model (seeded_choices seed) done;
-  let real = List.map (fun o -> match args o with [x] -> x | _ -> failwith "outcome shape") outs in
+  (* the family of map orders is walked lazily: identity first, then seeds 1..48 (on a miss up to 59) *)
+  let next_seed = ref 0 in
+  let add_next () =
+    (if !next_seed = 0 then add_model id_choices else add_model (seeded_choices !next_seed)); incr next_seed in
+  if not large then add_next ();
+  let rec model_has so limit =
+    Hashtbl.mem model so || (amb <> [] && !next_seed <= limit && (add_next (); model_has so limit)) in
+  let valid_order = lazy (find_valid_order items) in
+  (* (o <outcome> <run>...): the runs differ in the other options of Initialize (DAG dump, DumpPlan, ...) *)
+  let real = List.map (fun o -> match args o with
+      | x :: runs -> (x, if List.length runs >= 4 || runs = [] then "" else " {observed in run(s) " ^ String.concat " " (List.map atom runs)
+                                                                          ^ "; Initialize options of the runs: 0 none, 1 DAG dump, 2 DumpPlan+PrintActions+hibernation, 3 all}")
+      | _ -> failwith "outcome shape") outs in
   if List.length real > 1 then count "resolve_nondeterministic";
   let unstable_sort = dup_names && n_items > 12 in
-  List.iter (fun o ->
+  List.iter (fun (o, runs_note) ->
     let so = string_of_sx o in
+    let propfail id text = propfail id (text ^ runs_note) in
+    let mismatch id text = mismatch id (text ^ runs_note) in
     (* fine correspondence *)
-    if Hashtbl.mem model "(fuel)" then mismatch id "resolve: model out of fuel"
+    if large then ()
     else if unstable_sort then count "resolve_unstable_sort_region"
-    else if not (Hashtbl.mem model so) then begin
-      if amb <> [] then begin
-        (* more map orders before giving up *)
-        let seed = ref 49 in
-        while not (Hashtbl.mem model so) && !seed < 60 do add_model (seeded_choices !seed); incr seed done
-      end;
-      if Hashtbl.mem model so then ()
+    else if model_has so 48 && not (Hashtbl.mem model "(fuel)") then ()
+    else if Hashtbl.mem model "(fuel)" then mismatch id "resolve: model out of fuel"
+    else begin
+      if model_has so 59 then ()
       else if Hashtbl.mem model "(unspec)" then count "resolve_model_unspecified"
       else mismatch id (Printf.sprintf "resolve (%s): implementation %s, model %s" kind so
              (String.concat " | " (Hashtbl.fold (fun k () acc -> k :: acc) model [])))
@@ -119,10 +205,27 @@ let check_resolve (id : int) (kind : string) (specs : spec list) (outs : sx list
             let order = List.map (Hashtbl.find by_id) ids in
             if not (perm_b order items) then
               propfail id ("resolve: the resolved order loses or duplicates an item: " ^ show_ints ids)
+            else if large then begin
+              (* the strict validator is quadratic; order_ok (cubic and more) only when no strict order exists *)
+              if chain_order_ok items order then count "resolve_large_ok_strict"
+              else match Lazy.force valid_order with
+                | Some ("strict", _) ->
+                    propfail id (Printf.sprintf "resolve: success reported for %d items, but an item runs before another provider of an entity it requires although an order without such an inversion exists" n_items)
+                | _ -> if not (order_ok items order) then
+                         propfail id (Printf.sprintf "resolve: success reported for %d items but the order violates a requirement" n_items)
+            end
             else if not (order_ok items order) then
               propfail id ("resolve: success reported but the order violates a requirement (an item runs before a provider that does not depend on it, or sees no provider at all): " ^ show_ints ids)
             else if maxp <= 1 && not (positions_strict [] order) then
               propfail id ("resolve: one provider per entity, but an item does not run after its provider: " ^ show_ints ids)
+            else if maxp = 2 && not (chain_order_ok items order) then begin
+              count "resolve_ok_not_strict";
+              match Lazy.force valid_order with
+              | Some ("strict", o) ->
+                  propfail id ("resolve: success reported, but an item runs before another provider of an entity it requires although the order "
+                               ^ show_ints (List.map (fun it -> int_of_z it.iid) o) ^ " has no such inversion: " ^ show_ints ids)
+              | _ -> ()
+            end
           end
       | "err", [A "unsat"] ->
           count "resolve_err_unsat";
@@ -132,18 +235,26 @@ let check_resolve (id : int) (kind : string) (specs : spec list) (outs : sx list
           if maxp < 3 then propfail id "resolve: 'ambiguous graph' although no entity has three providers"
       | "err", [A "sort"] ->
           count "resolve_err_sort";
-          if maxp <= 1 then begin
+          if large then begin
+            match Lazy.force valid_order with
+            | Some ("strict", _) ->
+                propfail id (Printf.sprintf "resolve: 'topological sort failure' for %d items although the requirements are not cyclic: an order exists in which every item runs after all the other providers of what it requires" n_items)
+            | _ -> ()
+          end
+          else if maxp <= 1 then begin
             if not (cyclicb items) && not (unsatisfiedb items) then
               propfail id "resolve: 'topological sort failure' although the requirements are acyclic, satisfied and unambiguous"
           end else begin
             count "resolve_err_sort_chained";
-            (* statistic only: a chained 'topological sort failure' although some order passes the validator *)
-            if n_items <= 6 then begin
-              let rec perms = function
-                | [] -> [[]]
-                | l -> List.concat_map (fun x -> List.map (fun p -> x :: p) (perms (List.filter (fun y -> y != x) l))) l in
-              if List.exists (fun o -> order_ok items o) (perms items) then count "resolve_err_sort_chained_valid_order_exists"
-            end
+            (* the error is only due when the requirements are cyclic: not when some order of the items is
+               accepted by the validator (every requirement provided before, later providers chained behind) *)
+            match Lazy.force valid_order with
+            | Some ("suffix", _) -> count "resolve_err_sort_chained_suffix_order_exists"
+            | Some (how, o) ->
+                count "resolve_err_sort_chained_valid_order_exists";
+                propfail id ("resolve: 'topological sort failure' although the requirements are not cyclic (" ^ how ^ "): every item runs after all the other providers of what it requires in the order "
+                             ^ show_ints (List.map (fun it -> int_of_z it.iid) o))
+            | None -> ()
           end
       | "err", _ -> propfail id ("resolve: unexpected error " ^ so)
       | "panic", _ -> propfail id ("resolve panics instead of returning an order or an error: " ^ so)
@@ -154,7 +265,8 @@ let check_resolve (id : int) (kind : string) (specs : spec list) (outs : sx list
   ) real
 
 (* ---------- the deployment part ---------- *)
-let check_deploy (id : int) (kind : string) (c : sx) : spec list * sx list =
+(* the registry table of a case: string codes, the two Go maps, the entry of a deployment spec *)
+let parse_registry (c : sx) =
   let codes : (string, int) Hashtbl.t = Hashtbl.create 64 in
   let code s = match Hashtbl.find_opt codes s with
     | Some i -> z_of_int i
@@ -168,11 +280,17 @@ let check_deploy (id : int) (kind : string) (c : sx) : spec list * sx list =
   let registry = {
     provided = List.map (fun p -> (code (tag p), List.map (fun n -> find_ent (atom n)) (args p))) (args (field "prov" reg));
     registered = List.map (fun (n, e) -> (code n, e)) ents } in
-  let feats = List.map code (strings_of_sx (field "feats" c)) in
-  let roots = List.map (fun d -> match args d with
+  let root_of d = match args d with
       | [A "real"; A n] -> find_ent n
       | [A "synth"; A n; p; r; f; _] -> entry n (strings_of_sx p) (strings_of_sx r) (strings_of_sx f)
-      | _ -> failwith "deploy shape") (args (field "deploys" c)) in
+      | _ -> failwith "deploy shape" in
+  let name_of (i : int) = Hashtbl.fold (fun s j acc -> if i = j then s else acc) codes "?" in
+  (code, registry, root_of, name_of)
+
+let check_deploy (id : int) (kind : string) (c : sx) : spec list * sx list =
+  let (code, registry, root_of, _) = parse_registry c in
+  let feats = List.map code (strings_of_sx (field "feats" c)) in
+  let roots = List.map root_of (args (field "deploys" c)) in
   let obs = field "obs" c in
   (match field_opt "nondet" obs with
    | Some _ -> propfail id "DeployItem deploys different item sets on equal inputs"
@@ -222,16 +340,110 @@ let check_deploy (id : int) (kind : string) (c : sx) : spec list * sx list =
   end;
   (items, args (field "outs" obs))
 
+
+(* ---------- API operation sequences ----------
+   The pipeline of the model: instances (id, registry entry) in AddItem order + the enabled features.
+   SetFeature / DeployItem are the extracted set_feature / deploy; AddItem appends, RemoveItem deletes
+   the first occurrence of the instance and nothing else (pipeline.go, three lines each). *)
+let check_seq (id : int) (kind : string) (c : sx) : (spec list * sx list) option =
+  let (code, registry, root_of, name_of) = parse_registry c in
+  let show_names l = "[" ^ String.concat " " (List.map name_of l) ^ "]" in
+  let in_domain = reg_okb registry in
+  let obs = field "obs" c in
+  (match field_opt "nondet" obs with
+   | Some _ -> propfail id "the same sequence of API calls leaves different pipelines on equal inputs"
+   | None -> ());
+  let steps = args (field "steps" obs) in
+  let items : (int * rentry) list ref = ref [] in
+  let feats = ref [] in
+  let next = ref 0 in
+  let fresh () = let i = !next in incr next; i in
+  let find name which =
+    let l = List.filter (fun (_, e) -> e.rname = code name) !items in
+    match l, which with
+    | [], _ -> None
+    | x :: _, "first" -> Some x
+    | _, _ -> Some (List.nth l (List.length l - 1)) in
+  let rec remove_first i = function
+    | [] -> []
+    | (j, e) :: r -> if i = j then r else (j, e) :: remove_first i r in
+  let show l = "(s" ^ String.concat "" (List.map (fun (i, e) -> Printf.sprintf " %d %s" i (name_of (int_of_z e.rname))) l) ^ ")" in
+  let ok = ref true in
+  let deploy_step k (inst : int option) (root : rentry) (real : (int * int) list) =
+    count "deployments";
+    let p = { p_items = List.map snd !items; p_feats = !feats } in
+    match deploy registry p root with
+    | None -> mismatch id "deploy: model out of fuel"; ok := false
+    | Some p' ->
+        let before = List.length !items in
+        let added = List.filteri (fun j _ -> j >= before) p'.p_items in
+        let added_ids = List.mapi (fun j e -> ((if j = 0 then (match inst with Some i -> i | None -> fresh ()) else fresh ()), e)) added in
+        (* property: the names added by this call are the closure of the root under the enabled providers of
+           its requirements, and nothing else was touched *)
+        if in_domain then begin
+          let want = List.map int_of_z (closure_names registry p root) in
+          let old_real = List.filteri (fun j _ -> j < before) real and new_real = List.filteri (fun j _ -> j >= before) real in
+          let model_old = List.map (fun (i, e) -> (i, int_of_z e.rname)) !items in
+          if old_real <> model_old then ()  (* reported as a mismatch below *)
+          else if List.sort compare (List.map snd new_real) <> want then
+            propfail id (Printf.sprintf "call #%d (DeployItem): the items added to the pipeline %s are not the closure of the deployed item under the enabled providers of its requirements %s"
+                           k (show_names (List.map snd new_real)) (show_names want))
+        end;
+        items := !items @ added_ids;
+        feats := p'.p_feats in
+  List.iteri (fun k o ->
+    if !ok && k < List.length steps then begin
+      let st = List.nth steps k in
+      if tag st = "panic" then (propfail id (Printf.sprintf "call #%d panics" k); ok := false)
+      else begin
+        let rec pairs = function
+          | i :: n :: r -> (int_of_sx i, int_of_z (code (atom n))) :: pairs r
+          | _ -> [] in
+        let real = pairs (args st) in
+        count ("op_" ^ tag o);
+        (match tag o, args o with
+         | "feat", [A f] -> feats := (set_feature { p_items = []; p_feats = !feats } (code f)).p_feats
+         | "add", [d] -> items := !items @ [(fresh (), root_of d)]
+         | "deploy", [d] -> deploy_step k None (root_of d) real
+         | "rm", [A n; A w] -> (match find n w with Some (i, _) -> items := remove_first i !items | None -> ())
+         | "readd", [A n; A w] -> (match find n w with Some x -> items := !items @ [x] | None -> ())
+         | "redeploy", [A n; A w] -> (match find n w with Some (i, e) -> deploy_step k (Some i) e real | None -> ())
+         | _ -> failwith ("op shape " ^ string_of_sx o));
+        let model = List.map (fun (i, e) -> (i, int_of_z e.rname)) !items in
+        if !ok && model <> real then begin
+          mismatch id (Printf.sprintf "call #%d %s (%s): pipeline of the implementation %s, of the model %s" k (tag o) kind
+                         (string_of_sx st) (show !items));
+          ok := false
+        end
+      end
+    end) (args (field "ops" c));
+  let specs = List.map spec_of_sx (args (field "items" obs)) in
+  let outs = args (field "outs" obs) in
+  if not !ok then None
+  else if List.exists (fun o -> match args o with x :: _ -> tag x = "skipped" | _ -> false) outs then (count "seq_same_instance_twice"; None)
+  else begin
+    List.iter2 (fun (_, e) s ->
+      if List.map int_of_z e.rprov <> List.map (fun x -> int_of_z (code x)) s.sprov
+      || List.map int_of_z e.rreq <> List.map (fun x -> int_of_z (code x)) s.sreq then
+        mismatch id ("sequence: provides/requires of a pipeline item differ from its specification: " ^ s.sname))
+      !items specs;
+    Some (specs, outs)
+  end
+
 let () =
   iter_cases (fun id c ->
     let kind = atom (List.hd (args (field "kind" c))) in
     count ("kind_" ^ kind);
-    match field_opt "deploys" c with
-    | Some _ ->
+    match field_opt "ops" c, field_opt "deploys" c with
+    | Some _, _ ->
+        (match check_seq id kind c with
+         | Some (items, outs) -> check_resolve id kind items outs false
+         | None -> ())
+    | None, Some _ ->
         let (items, outs) = check_deploy id kind c in
         let uast_on = List.mem "uast" (strings_of_sx (field "feats" c)) in
         let must = uast_on && (kind = "leaves" || kind = "leaves-rev" || kind = "single") in
         check_resolve id kind items outs must
-    | None ->
+    | None, None ->
         let items = List.map spec_of_sx (args (field "items" c)) in
         check_resolve id kind items (args (field "obs" c)) false)
